@@ -143,10 +143,11 @@ func main() {
 		os.Exit(2)
 	}
 	analysed := map[string]interface{}{
-		"repository":        *repo,
-		"files":             w.Files,
-		"package_functions": len(w.Funcs),
-		"configurations":    []string{"default"},
+		"repository":         *repo,
+		"files":              w.Files,
+		"package_functions":  len(w.Funcs),
+		"configurations":     []string{"default"},
+		"ssa_normalisations": fmt.Sprintf("%d join-and-return / constant-branch blocks folded back into their predecessors (splitret.go), each function re-checked by go/ssa's sanity checker", w.SplitReturns),
 	}
 	r.Extra["analysed"] = analysed
 	runGuarded(p, w, r, "")
@@ -162,6 +163,11 @@ func main() {
 				analysed["helpers_inlined"] = wi.InlineDescr
 				r, w = ri, wi
 			} else if os.Getenv("EVALSA_DEBUG") != "" {
+				for _, id := range ri.ruleOrder {
+					if st := ri.rules[id]; st.Instances < st.Floor {
+						fmt.Fprintf(os.Stderr, "inlined run still fails: %s has %d instance(s), floor %d\n", id, st.Instances, st.Floor)
+					}
+				}
 				for _, o := range ri.Obls {
 					if o.Verdict == Violated {
 						fmt.Fprintf(os.Stderr, "inlined run still fails: %s %s %s: %s -- %s\n", o.Rule, o.Pos, o.Func, o.What, o.Why)
@@ -172,9 +178,10 @@ func main() {
 	}
 
 	if *tier == "thorough" {
+		inl := w.InlineDescr != "" // the verdict comes from the helper-inlined form: compare like with like
 		configs := []LoadConfig{
-			{Dir: *repo, GOARCH: "386"},
-			{Dir: *repo, Tags: "verif"},
+			{Dir: *repo, GOARCH: "386", Inline: inl},
+			{Dir: *repo, Tags: "verif", Inline: inl},
 		}
 		names := []string{"default"}
 		for _, c := range configs {
